@@ -105,6 +105,22 @@ CHECKS = {
    technique='TLA+ model checking (TLC) + trace validation of real executions against the TLA+ spec',
    design='6/C13'),
 }
+# what the last session added to each check (appended to the texts above)
+ADDED = {
+ "C01": "Every hash, HMAC and CRC context is moved to a fresh block between any two updates (the old block poisoned and released) and read through a finalised copy: the digest of each prefix is checked too.",
+ "C02": "One stream object is re-keyed with keys of alternating lengths expanded at the address of the key just released (a recycling allocator mode of the harness).",
+ "C05": "Interrupt requests also arrive from a signal handler while the loop is inside the first poll of a run (as poll returns, or interrupting its sleep with EINTR): nothing more is dispatched in that run and everything stays registered.",
+ "C06": "NetConnect.tla distinguishes no / short / zero per-address timeouts; single reads and writes of 1 MiB and more (and the neighbours of the power of two) with every minimum.",
+ "C07": "Single buffered writes of 64 KiB .. 4 MiB; every fourth program runs over the TLS transport (netbuf_ssl over network_ssl with a scripted engine whose plaintext side is the same scripted socket).",
+ "C08": "Every fourth scenario runs over the TLS transport (https_request: netbuf_ssl and network_ssl under http.c, scripted engine); this is how defect F13 (use of the TLS context after a callback closed it) was found and is kept from returning.",
+ "C09": "Every fourth scenario runs over the TLS transport (https_request: netbuf_ssl and network_ssl under http.c, scripted engine).",
+ "C13": "Timer-queue programs place time zero anywhere in the time scale (times before it have a negative tv_sec).",
+ "C14": "HTTP and buffered reader / writer scenarios over the TLS transport are fault-enumerated as well (defect F14: a request that could not be started stayed recorded in the TLS context); directed connection lists whose first addresses fail exercise the retry inside network_connect at every allocation.",
+ "C16": "The string, base and trailing arguments of the macros are expressions with side effects (`*sp++`): each must be evaluated exactly once.",
+ "C17": "The deserialised copy, the duplicate and a duplicate of the duplicate of every address are printed too and must print as the original.",
+ "C18": "Tokens with bytes above 0x7f (0xff, 0x80, 0xfe as option characters, in packs, as arguments).",
+ "C19": "An absent body is also passed with a left-over length argument.",
+}
 REASON_PENDING = "check under construction in this session (specification and harness not committed yet); see DESIGN.md section 6 for the planned decision procedure"
 
 def main():
@@ -120,7 +136,7 @@ def main():
             "evidence_file": "evidence/%s.json" % pid,
             "replay_cmd_template": "bin/check %s --replay {path}" % pid,
             "engine": "tlc+harness",
-            "level_claimed": {"category": "model_checking", "text": c["text"], "design_ref": "DESIGN.md section " + c["design"]},
+            "level_claimed": {"category": "model_checking", "text": c["text"] + (" " + ADDED[pid] if pid in ADDED else ""), "design_ref": "DESIGN.md section " + c["design"]},
             "level_note": c["note"],
             "technique": c["technique"],
         })
